@@ -1,6 +1,6 @@
 """C07 — a false guard makes code inert; a true guard is transparent."""
 import copy
-import tracecheck, progs
+import tracecheck, progs, matrixcases
 
 PID = "C07"
 PROFILE = {"p_ignore": 0.0, "p_valid_inputs": 0.45, "guard_inputs": [0, 3], "max_guard_depth": 3, "lengths": [4, 6, 8, 10],
@@ -25,6 +25,17 @@ def variants(case, rnd):
     guarded regions inlined (transparency twin)"""
     n, p = case["cfg"]["n"], case["cfg"]["p"]
     pool = [0, 1, -1, 2 ** n, -2 ** n - 1, p, 3, 2 ** n + 5, rnd.randrange(-2 ** (n + 1), 2 ** (n + 1))]
+    if case.get("matrix"):
+        # deterministic matrix cases: operands are inputs 0 and 1, guards inputs 2 and 3
+        bools = {s[3] for s in case["prog"] if s[0] == "input" and s[2].endswith("bool")}
+        def opnd(i): return rnd.choice([0, 1]) if i in bools else rnd.choice(pool)
+        v1 = copy.deepcopy(case); v1["ins"] = [opnd(0), opnd(1), 0, 0]; v1["role"] = "false-guards"
+        v2 = copy.deepcopy(case); v2["ins"] = [case["ins"][0], case["ins"][1], 1, 1]; v2["role"] = "true-guards"
+        out = [v1, v2]
+        if has(case["prog"], "guarded") and not has(case["prog"], "itelazy") and not has(case["prog"], "oif"):
+            v3 = copy.deepcopy(v2); v3["prog"] = inline_guards(v2["prog"]); v3["role"] = "inlined"
+            out.append(v3)
+        return out
     v1 = copy.deepcopy(case); v1["ins"] = [0, rnd.choice(pool), rnd.choice(pool), 0]; v1["role"] = "false-guards"
     v2 = copy.deepcopy(case); v2["ins"] = [1, case["ins"][1], case["ins"][2], 1]; v2["role"] = "true-guards"
     out = [v1, v2]
@@ -77,7 +88,11 @@ def post(cov, cases, recs):
 
 
 def run(tier, seed):
-    return tracecheck.run(PID, tier, seed, PROFILE, oracle, n_quick=320, n_thorough=6000, variants=variants, post=post, mask=1 | 2 | 4 | 8)
+    # deterministic part: every assertion / decomposition / division x operand kinds inside guarded regions, each run with the
+    # guards false on arbitrary operands (inert), true (transparent) and with the regions inlined
+    pending = matrixcases.assertion_contexts(tier, ctxs=["g1", "g1g1", "lazy1"], bin_ctxs=["g1"])
+    return tracecheck.run(PID, tier, seed, PROFILE, oracle, n_quick=4 * len(pending) + 320, n_thorough=4 * len(pending) + 6000, variants=variants, post=post, mask=1 | 2 | 4 | 8,
+                          casegen=matrixcases.with_pending(pending, PROFILE))
 
 
 def replay(payload):
